@@ -57,14 +57,21 @@ def _alarm(signum, frame):
 
 @contextlib.contextmanager
 def watchdog(seconds):
-    old = signal.signal(signal.SIGALRM, _alarm)
+    """Interrupt the assembler after `seconds` of CPU time of this process (ITIMER_PROF): on a loaded machine a wall-clock
+    limit would turn a starved but terminating run into a false "hang".  A wall-clock backstop of 30x guards against a run
+    that blocks without using the CPU."""
+    old_prof = signal.signal(signal.SIGPROF, _alarm)
+    old_alrm = signal.signal(signal.SIGALRM, _alarm)
     _fired[0] = False
-    signal.setitimer(signal.ITIMER_REAL, seconds)
+    signal.setitimer(signal.ITIMER_PROF, seconds)
+    signal.setitimer(signal.ITIMER_REAL, seconds * 30)
     try:
         yield
     finally:
+        signal.setitimer(signal.ITIMER_PROF, 0)
         signal.setitimer(signal.ITIMER_REAL, 0)
-        signal.signal(signal.SIGALRM, old)
+        signal.signal(signal.SIGPROF, old_prof)
+        signal.signal(signal.SIGALRM, old_alrm)
 
 
 class Collector:
@@ -217,7 +224,7 @@ def snapshot(d):
     return out
 
 
-def run_cli(args, cwd, stdin=None, timeout=30.0, hashseed="0", extra_env=None):
+def run_cli(args, cwd, stdin=None, timeout=120.0, hashseed="0", extra_env=None):
     """python -m pdpy11 <args> in cwd.  Returns dict(rc, out, err, changed={rel: bytes}, hang)."""
     env = dict(os.environ)
     env["PYTHONPATH"] = str(REPO)
